@@ -15,8 +15,8 @@ from .world import World
 class RawView:
     """Auditor connection: reads the Cache table behind the library's back."""
 
-    def __init__(self, directory):
-        self.con = sqlite3.connect(directory + '/cache.db', timeout=5, isolation_level=None)
+    def __init__(self, directory, timeout=5):
+        self.con = sqlite3.connect(directory + '/cache.db', timeout=timeout, isolation_level=None)
 
     def rowids(self):
         return [r[0] for r in self.con.execute('SELECT rowid FROM Cache ORDER BY rowid').fetchall()]
